@@ -22,8 +22,9 @@ if [ $RC -ne 0 ]; then
 fi
 rm -f "$LOG"
 BIN=/verif/target/debug/check
+# the engine logs recovery chatter ("[persist] ...", hnsw_rs build lines) on stderr: drop it
 case "$MODE" in
-  quick|thorough) exec "$BIN" "$ID" --tier "$MODE" ;;
-  replay) exec "$BIN" "$ID" --replay "$3" ;;
+  quick|thorough) "$BIN" "$ID" --tier "$MODE" 2> >(grep -v -e '^\[persist\]' -e '^\[wal\]' >&2); exit $? ;;
+  replay) "$BIN" "$ID" --replay "$3" 2> >(grep -v -e '^\[persist\]' -e '^\[wal\]' >&2); exit $? ;;
   *) echo "unknown mode $MODE"; exit 2 ;;
 esac
